@@ -161,6 +161,37 @@ func opHash(datatype string, value any) op {
 	}}
 }
 
+// altHasher is a second hasher (Poseidon over the message with a marker byte in front).  Ops
+// that configure it through merklize.Options run next to ops that use the package default, so a
+// code path that lets a per-call option leak into the package-level default shows up as a data
+// race and as a differing result.
+type altHasher struct{ merklize.PoseidonHasher }
+
+func (a altHasher) HashBytes(msg []byte) (*big.Int, error) {
+	return a.PoseidonHasher.HashBytes(append([]byte{0x5a}, msg...))
+}
+
+func opPath(alt bool, parts ...any) op {
+	arg := fmt.Sprintf("path|alt=%v|%v", alt, parts)
+	return op{kind: "hash", arg: arg, run: func(e *mixEnv) string {
+		var p merklize.Path
+		var err error
+		if alt {
+			p, err = merklize.Options{Hasher: altHasher{}}.NewPath(parts...)
+		} else {
+			p, err = merklize.NewPath(parts...)
+		}
+		if err != nil {
+			return errClass(err)
+		}
+		h, err := p.MtEntry()
+		if err != nil {
+			return errClass(err)
+		}
+		return h.String()
+	}}
+}
+
 func opLoad(u string) op {
 	return op{kind: "load", arg: u, run: func(e *mixEnv) string {
 		doc, err := e.loader.LoadDocument(u)
@@ -243,6 +274,11 @@ func buildPool(seed int64, sharedDoc testDoc, resolve func(dotted string) (merkl
 	}
 	add(opHash(xsd+"double", float64(rng.Intn(1_000_000))/8))
 	add(opHash(xsd+"string", []byte("unsupported go type")))
+	for _, alt := range []bool{false, true} {
+		add(opPath(alt, "https://www.w3.org/2018/credentials#credentialSubject", "https://example.org/vocab#name"))
+		add(opPath(alt, "https://example.org/vocab#list", 3, "https://example.org/vocab#item"))
+		add(opPath(alt, "https://example.org/vocab#"+fmt.Sprint(rng.Intn(1000))))
+	}
 
 	// (d) loading through the loader
 	for _, u := range knownURLs {
